@@ -166,6 +166,24 @@ func VerifH_C14_Deviations() {
 		{"type string;", "deviate replace { default 'b'; }", "", false, true},
 		{"type string;", "deviate delete { default 'a'; }", "", false, true},
 		{"type string;", "deviate not-supported; deviate add { default 'a'; }", "", false, true},
+		// not-supported must stand alone, wherever it is written
+		{"type string;", "deviate add { default 'a'; } deviate not-supported;", "", false, true},
+		{"type string; default 'a';", "deviate replace { default 'b'; } deviate not-supported;", "", false, true},
+		{"type string; default 'a';", "deviate delete { default 'a'; } deviate not-supported;", "", false, true},
+		{"type string;", "deviate add { units 'u'; } deviate not-supported; deviate replace { type uint8; }", "", false, true},
+		// more properties, several deviates in one deviation
+		{"type string; units 'u';", "deviate delete { units 'u'; }", "type string;", false, false},
+		{"type string; units 'u';", "deviate replace { units 'v'; }", "type string; units 'v';", false, false},
+		{"type string; mandatory true;", "deviate replace { mandatory false; }", "type string; mandatory false;", false, false},
+		{"type string;", "deviate add { must 'true()'; }", "type string; must 'true()';", false, false},
+		{"type string; must 'true()';", "deviate delete { must 'true()'; }", "type string;", false, false},
+		{"type string;", "deviate add { units 'u'; } deviate replace { type uint8; }", "type uint8; units 'u';", false, false},
+		{"type string; default 'a';", "deviate delete { default 'a'; } deviate add { units 'u'; }", "type string; units 'u';", false, false},
+		// forbidden: adding what exists, replacing / deleting what does not
+		{"type string; units 'u';", "deviate add { units 'v'; }", "", false, true},
+		{"type string;", "deviate replace { units 'v'; }", "", false, true},
+		{"type string;", "deviate delete { units 'u'; }", "", false, true},
+		{"type string; units 'u';", "deviate delete { units 'other'; }", "", false, true},
 	}
 	k := vrt.Choice("deviation", len(devs))
 	d := devs[k]
